@@ -5,10 +5,25 @@
 //!     sources at run time) denotes the same, pinned, code in every position of the language;
 //! (3) `OsCode` and `KeyCode` coincide value for value (natively and in the enum declarations of the
 //!     current sources, against pinned tables cross-checked with the kernel header);
-//! (4) `Cfg.mapped_keys` equals the set computed from the generator's own description.
+//! (4) `Cfg.mapped_keys` equals the set computed from the generator's own description;
+//! (5) the reserved no-op codes never reach the OS on ANY output path (c11_paths.rs): a scenario
+//!     family that types a key through sequences (three input modes x completed / invalid key /
+//!     timeout / cancelled by the key itself / held over the cancel / shifted / leader in a macro),
+//!     macros, dynamic macro replay, zippychord (bystander input and mapped output character),
+//!     unmod/unshift, overrides, one-shot, chords v1/v2, tap-hold, tap-dance, fork/switch/multi,
+//!     modifier prefixes, rpt/rpt-any, virtual keys, caps-word, layers; each with nop0..nop9 and with
+//!     a control key that proves the path writes the typed key; designed + seeded random histories;
+//! (6) the defsrc layer is the identity under every defcfg option combination
+//!     (delegate-to-first-layer x transparent-key-resolution x block-unmapped-keys x
+//!     process-unmapped-keys): a key mapped to `use-defsrc` directly, by deflayermap input or by a
+//!     deflayermap wildcard (_ __ ___), or transparent above an identity, on a held / switched /
+//!     held-over-switched layer or on the first layer itself comes out as itself whatever the first
+//!     layer maps it to; the `src_keys` row handed to the layout is the identity.
 
 #[path = "c11_ref.rs"]
 mod refs;
+#[path = "c11_paths.rs"]
+mod paths;
 
 use crate::core::rng::Rng;
 use crate::core::sim::{render_hist, Ev, OutKind, Sim};
@@ -831,7 +846,7 @@ impl Check for C11Check {
         "C11"
     }
     fn n_cases(&self, ctx: &Ctx) -> u64 {
-        n_stepper() + n_names() + 1 + n_mapped(ctx)
+        n_stepper() + n_names() + 1 + n_mapped(ctx) + paths::n_nop_cases() + paths::n_ident_cases(ctx)
     }
     fn describe(&self, ctx: &Ctx, idx: u64) -> Value {
         let (a, b) = (n_stepper(), n_names());
@@ -841,8 +856,12 @@ impl Check for C11Check {
             json!({"part": "names", "names": sources().names.iter().skip((idx - a) as usize * NAMES_PER_CASE).take(NAMES_PER_CASE).map(|x| x.0.clone()).collect::<Vec<_>>()})
         } else if idx == a + b {
             json!({"part": "enums"})
-        } else {
+        } else if idx < a + b + 1 + n_mapped(ctx) {
             json!({"part": "mapped", "config": make_mapped(ctx, idx - a - b - 1).cfg})
+        } else if idx < a + b + 1 + n_mapped(ctx) + paths::n_nop_cases() {
+            paths::describe_nop(idx - a - b - 1 - n_mapped(ctx))
+        } else {
+            paths::describe_ident(ctx, idx - a - b - 1 - n_mapped(ctx) - paths::n_nop_cases())
         }
     }
     fn run_case(&self, ctx: &Ctx, idx: u64) -> CaseOut {
@@ -860,13 +879,17 @@ impl Check for C11Check {
             }
         } else if idx == a + b {
             run_enums(&mut out);
-        } else {
+        } else if idx < a + b + 1 + n_mapped(ctx) {
             run_mapped(&mut out, ctx, idx - a - b - 1);
+        } else if idx < a + b + 1 + n_mapped(ctx) + paths::n_nop_cases() {
+            paths::run_nop(&mut out, ctx, idx - a - b - 1 - n_mapped(ctx));
+        } else {
+            paths::run_ident(&mut out, ctx, idx - a - b - 1 - n_mapped(ctx) - paths::n_nop_cases());
         }
         out
     }
     fn rule(&self) -> String {
-        "Exhaustive and seed-independent: (1) every code 0..=766 that OsCode::from_u16 knows is pressed, auto-repeated twice by the OS while held (KeyValue::Repeat), and released in a real Kanata in six configurations (named via deflocalkeys-linux and mapped to itself in defsrc/deflayer; `_`; `use-defsrc`; not in defsrc with process-unmapped-keys yes; the transparent and the unmapped variant again with a layer-while-held active whose layer is transparent) and the OS stream must be press c / repeat c / repeat c / release c with the pinned KeyCode name of value c (nothing at all, also no repeat, for 0 and 0x2a4..=0x2ad; mouse-button events for 272..=276 and one scroll event for 745..=748, where repeat outputs are counted but not judged); (2) every string literal of str_to_oscode and of its default-mapping table, extracted at run time from the current parser/src/keys/mod.rs, must denote its pinned code through str_to_oscode, in defsrc, as a layer action, as a deflayermap input, as fork trigger, as switch key / key-history / input item (each one-case switch evaluated for all 749 codes), in unmod, and on both sides of defoverrides; (3) for every code: from_u16/as_u16 round trip, u16::from(osc) == KeyCode::from(osc) as u16, reverse conversion, Debug names of both sides equal to pinned tables (OsCode names cross-checked with the kernel's input-event-codes.h), plus the enum declarations parsed from the current sources: same discriminant sets, no duplicate, every (variant, value) as pinned. Random: (4) configurations with random defsrc subsets, deflayermap inputs (also overlapping defsrc / excepted keys, with _ / __ / ___), process-unmapped-keys no | yes | (all-except ...), optional deflocalkeys; Cfg.mapped_keys must equal the set computed from that description. Non-trivial = accepted configuration / code / name; distinct = code, name, mapped-set class.".into()
+        "Exhaustive and seed-independent: (1) every code 0..=766 that OsCode::from_u16 knows is pressed, auto-repeated twice by the OS while held (KeyValue::Repeat), and released in a real Kanata in six configurations (named via deflocalkeys-linux and mapped to itself in defsrc/deflayer; `_`; `use-defsrc`; not in defsrc with process-unmapped-keys yes; the transparent and the unmapped variant again with a layer-while-held active whose layer is transparent) and the OS stream must be press c / repeat c / repeat c / release c with the pinned KeyCode name of value c (nothing at all, also no repeat, for 0 and 0x2a4..=0x2ad; mouse-button events for 272..=276 and one scroll event for 745..=748, where repeat outputs are counted but not judged); (2) every string literal of str_to_oscode and of its default-mapping table, extracted at run time from the current parser/src/keys/mod.rs, must denote its pinned code through str_to_oscode, in defsrc, as a layer action, as a deflayermap input, as fork trigger, as switch key / key-history / input item (each one-case switch evaluated for all 749 codes), in unmod, and on both sides of defoverrides; (3) for every code: from_u16/as_u16 round trip, u16::from(osc) == KeyCode::from(osc) as u16, reverse conversion, Debug names of both sides equal to pinned tables (OsCode names cross-checked with the kernel's input-event-codes.h), plus the enum declarations parsed from the current sources: same discriminant sets, no duplicate, every (variant, value) as pinned. Random: (4) configurations with random defsrc subsets, deflayermap inputs (also overlapping defsrc / excepted keys, with _ / __ / ___), process-unmapped-keys no | yes | (all-except ...), optional deflocalkeys; Cfg.mapped_keys must equal the set computed from that description. (5) Systematic, seed-independent scenarios plus seeded random histories: 134 small configurations in 41 families type a key K on every path that writes keys to the OS - sequences in the three input modes (mode from defcfg and from the (sequence t mode) leader; K first / second / third in the sequence; completed, cancelled by a foreign key, cancelled by the timeout, cancelled by K itself, K held and auto-repeated over the cancel, S-K, leader and K typed by one macro, virtual key whose macro types K), macro / macro-release-cancel / macro-cancel-on-press / macro-repeat, dynamic macro record + replay, zippychord with K pressed among the chord keys and with K as output-character-mapping (plain, S-, no-erase, single-output), unmod / unshift, defoverrides outputs (also with a modifier), one-shot / one-shot-release, defchords and defchordsv2, four tap-hold kinds, tap-dance / tap-dance-eager, fork / switch / multi, S- C-A- RA- prefixes, rpt / rpt-any, virtual keys through on-press / on-release / hold-for-duration and the direct fake-key operations, caps-word / caps-word-custom, held and switched layers; OS auto-repeats are part of the histories. Every scenario runs with K = nop0..nop9 (designed history + 6 / 200 random histories per key) and once with K = f24 (control). Judged: the raw OS stream (also redundant releases) of a nop run contains no press, repeat, release or raw-code event of 0x2a4..=0x2ad. The control run is only counted (did f24 reach the OS through this family?). (6) Exhaustive over the enumerated space: for 4 (quick) / 12 (thorough) codes x delegate-to-first-layer {no,yes} x transparent-key-resolution {absent,to-base-layer,layer-stack} x block-unmapped-keys {no,yes} x process-unmapped-keys {no,yes,(all-except f24)} x key in defsrc or not x first layer {deflayer: x, XX, _, the key, use-defsrc, (multi lctl x), (tap-hold ..); deflayermap: x, use-defsrc, key absent} x upper layer maps the key by {deflayer use-defsrc, deflayermap explicit use-defsrc, `_`, `__`, `___` wildcard use-defsrc, explicit transparent in deflayer / deflayermap above an identity} x activation {layer-while-held, layer-switch, transparent held layer over the switched layer, the first layer itself} (combinations the language rejects or in which the key is not intercepted are skipped; ~20 800 configurations in quick; two cases per (code, option combination) so that first layers that use use-defsrc themselves - which recurse without bound if the defsrc row is not the identity - cannot hide the others): press, two OS repeats, release must come out as press c / repeat c / repeat c / release c, nothing may stay held, and Layout.src_keys must be KeyCode(c) in column c (no-op in column 0 and for codes unknown to the OS layer). Non-trivial = accepted configuration / code / name / scenario; distinct = code, name, mapped-set class, scenario family + variant, (code, option combination).".into()
     }
     fn assumptions(&self) -> Vec<String> {
         vec![
@@ -875,10 +898,13 @@ impl Check for C11Check {
             "whether codes 0 (KEY_RESERVED) and 240 (KEY_UNKNOWN = KeyCode::No) belong to 'all known keys' under process-unmapped-keys is not decided by the statement; their membership in mapped_keys is counted, not judged".into(),
             "codes 749..=766 are unknown to OsCode::from_u16 and cannot be delivered by the OS layer; they are counted and skipped".into(),
             "the Miri lane for the transmute is a separate crate (/verif/harness-miri) and not part of this in-process check".into(),
+            "part 5 judges only the absence of OS events for the reserved codes; what else a scenario types (backspaces, the other keys) belongs to the properties of the respective feature. `(arbitrary-code n)` writes the number the user asked for and is not part of the scenarios; cmd-output-keys (feature `cmd`) and live reload are not reachable in this build / stepper. The control key (f24) is only counted: in the hidden-suppressed cancellation families and in one-shot it legitimately never reaches the OS".into(),
+            "part 5, unchanged tree: a zippychord output character mapped to a nop key (output-character-mappings) is typed with the unfiltered writer and reaches the OS; recorded as known finding C11:nop-path:reserved-code-reached-os:zippy-output-mapping (findings/C11-zippy-output-mapping-types-nop-keys.md); every other family is live".into(),
+            "part 6: with transparent-key-resolution to-base-layer AND delegate-to-first-layer yes the guide does not decide whether a transparent key of a held layer resolves to the switched layer below it or to the first layer, so the held-transparent-over-switched activation is skipped for that option pair; a transparent upper key is judged only above a first layer that is itself the identity at that position (what lies below a transparent key otherwise is C04's subject); key codes: letters, a modifier, a function key and codes that have no name (via deflocalkeys-linux), not the mouse pseudo keys or nop keys (their identity is part 1)".into(),
         ]
     }
     fn floors(&self, _ctx: &Ctx) -> Vec<(&'static str, u64)> {
-        vec![
+        let mut v: Vec<(&'static str, u64)> = vec![
             ("stepper_codes", 749),
             ("stepper_runs", 4_494),
             ("stepper_repeat_inputs", 8_988),
@@ -902,7 +928,44 @@ impl Check for C11Check {
             ("mapped_configs", 5_000),
             ("mapped_small_sets", 300),
             ("mapped_process_unmapped_sets", 500),
-        ]
+        ];
+        let q = _ctx.tier == crate::core::Tier::Quick;
+        v.extend([
+            ("noppath_scenarios", 134),
+            ("noppath_runs", if q { 9_000 } else { 260_000 }),
+            ("noppath_random_history_runs", if q { 8_000 } else { 260_000 }),
+            ("noppath_control_runs", 134),
+            ("noppath_control_key_reached_os", 95),
+            ("noppath_os_events_inspected", 25_000),
+            ("ident_configs", if q { 20_000 } else { 60_000 }),
+            ("ident_runs", if q { 20_000 } else { 60_000 }),
+            ("ident_key_came_out_as_itself", if q { 20_000 } else { 60_000 }),
+            ("ident_defsrc_columns_inspected", 15_000_000),
+            ("ident_delegate_to_first_layer_yes", 9_000),
+            ("ident_delegate_to_first_layer_no", 9_000),
+            ("ident_trans_resolution_default", 6_000),
+            ("ident_trans_resolution_to_base_layer", 6_000),
+            ("ident_trans_resolution_layer_stack", 6_000),
+            ("ident_block_unmapped_yes", 9_000),
+            ("ident_block_unmapped_no", 9_000),
+            ("ident_process_unmapped_no", 3_000),
+            ("ident_process_unmapped_yes", 6_000),
+            ("ident_process_unmapped_all_except", 6_000),
+            ("ident_key_not_in_defsrc", 3_000),
+            ("ident_upper_deflayer-entry", 3_000),
+            ("ident_upper_deflayermap-explicit", 5_000),
+            ("ident_upper_deflayermap-_", 3_500),
+            ("ident_upper_deflayermap-__", 700),
+            ("ident_upper_deflayermap-___", 3_000),
+            ("ident_upper_deflayer-transparent", 1_000),
+            ("ident_upper_deflayermap-transparent", 1_200),
+            ("ident_activation_held", 7_000),
+            ("ident_activation_switched", 7_000),
+            ("ident_activation_held-transparent-over-switched", 4_000),
+            ("ident_activation_first-layer-itself", 700),
+        ]);
+        v.extend(paths::nop_family_floors());
+        v
     }
     fn exhaustive(&self, _ctx: &Ctx) -> bool {
         true
